@@ -104,13 +104,20 @@ CHECKS = {'C01': {'level': 'exploration',
                  'Seek+Next, Range per block, Clone, Buffer/Commit codec, Log.Append/Range and a merge->put swap pass. non-trivial = the sequence '
                  'has >=2 of {negative delta, block switch, >=3-byte varint delta, interleaved blocks, swap with different length}; distinct = hash '
                  'of the rendered op list | thorough tier additionally runs the coverage-guided native fuzz target FuzzBufferOps (bytes decoded into '
-                 'the same op grammar, semantic oracle inside the target) for 90 s on all cores; see coverage.native_fuzz_execs',
+                 'the same op grammar, semantic oracle inside the target) for 90 s on all cores; see coverage.native_fuzz_execs | big payloads '
+                 '(TestC05Big): sequences of 30000..65535-byte strings whose total payload in ONE block crosses the 1 MiB block size of the s2 '
+                 'stream behind commit.Log (around 1, 2 and 3 MiB +- 70000 bytes), through every view incl. Log.Append/Range in memory and on a file',
          'assumptions': ['offsets < 2^31 and byte strings <= 65535 bytes (format limits)',
                          'merge operations always carry a value (as every caller in kelindar/column does)'],
          'tests': [{'run': '^TestC05Exhaustive$', 'timeout': {'quick': 600, 'thorough': 3000}, 'env': {'GOMAXPROCS': 1}},
                    {'run': '^TestC05Random$',
                     'checks': {'quick': 8000, 'thorough': 40000},
                     'shards': {'quick': 1, 'thorough': 16},
+                    'timeout': {'quick': 600, 'thorough': 3000},
+                    'env': {'GOMAXPROCS': 1}},
+                   {'run': '^TestC05Big$',
+                    'checks': {'quick': 25, 'thorough': 300},
+                    'shards': {'quick': 1, 'thorough': 4},
                     'timeout': {'quick': 600, 'thorough': 3000},
                     'env': {'GOMAXPROCS': 1}},
                    {'run': 'FuzzBufferOps (native)',
